@@ -40,6 +40,7 @@ type Ctx struct {
 	callerCache   map[string]map[string]bool
 	valueUseCache map[string]bool
 	litNames      map[*ast.FuncLit]string
+	memoTab       map[string]any
 	AliasNotes    []string
 }
 
